@@ -2353,6 +2353,17 @@ def local_only(tensor):
     return acc[0]
 
 
+def _eye_impl(n):
+    return tl.eye(n)
+
+
+_memo_eye = functools.lru_cache(maxsize=None)(_eye_impl)
+
+
+def use_assigned_cache(tensor):
+    return _memo_eye(tl.shape(tensor)[0]) * tensor
+
+
 class Est:
     _shared = {}
 
@@ -2363,7 +2374,8 @@ class Est:
 """
 CANARY_SCAN_EXPECTED = {("cached_solver", "module-state-store"), ("last_scale", "global"),
                         ("memo_eye", "cache-decorator"), ("attr_cached", "module-state-store"), ("default_cached", "mutable-default-store"),
-                        ("remember", "module-state-mutation"), ("make_counter.<locals>.bump", "closure-mutation"), ("Est.fit", "class-level-mutable-store")}
+                        ("remember", "module-state-mutation"), ("make_counter.<locals>.bump", "closure-mutation"), ("Est.fit", "class-level-mutable-store"),
+                        ("use_assigned_cache", "module-object-call")}
 
 
 def history_canaries():
